@@ -33,6 +33,24 @@ def gen(chk):
                         for par in (0, 1):
                             chk.add('xonly_pubkey_tweak_add_check %s #%d %s %s' % (h32(T[0]), par, pk_obj(X), h32(t)), 'tweak_add_check')
                         chk.add('xonly_pubkey_tweak_add_check %s #%d %s %s' % (h32(T[0] ^ 1), T[1] & 1, pk_obj(X), h32(t)), 'tweak_add_check_wrong_x')
+    # the tweaked key is compared as 32 BYTES: an alias x + p of the right x coordinate (possible only for tiny x) is refused.
+    # T is a curve point with tiny x, the internal key is X = T - t*G with even y, so the tweak really produces T
+    found = 0; x = 0
+    while found < chk.scale(4, 20):
+        x += 1
+        T0 = lift_x(x)
+        if T0 is None: continue
+        found += 1
+        for T in (T0, neg(T0)):
+            for _ in range(40):
+                t = r.seckey(); X = add(T, neg(mul(t, G)))
+                if X is not None and X[1] % 2 == 0: break
+            else: continue
+            par = T[1] & 1
+            chk.add('xonly_pubkey_tweak_add_check %s #%d %s %s' % (h32(x), par, pk_obj(X), h32(t)), 'tweak_add_check_tiny_x')
+            chk.add('xonly_pubkey_tweak_add_check %s #%d %s %s' % (h32(x + P), par, pk_obj(X), h32(t)), 'tweak_add_check_alias_x_plus_p')
+            chk.add('xonly_pubkey_tweak_add_check %s #%d %s %s' % (h32(x + P), par ^ 1, pk_obj(X), h32(t)), 'tweak_add_check_alias_x_plus_p')
+            chk.add('xonly_pubkey_tweak_add %s %s' % (pk_obj(X), h32(t)), 'xonly_tweak_add_tiny_x')
     # zero / invalid objects -> illegal callbacks
     z = '00' * 64
     for op in ('ec_pubkey_negate %s', 'ec_pubkey_tweak_add %s ' + h32(1), 'ec_pubkey_tweak_mul %s ' + h32(2), 'xonly_pubkey_from_pubkey %s', 'xonly_pubkey_tweak_add %s ' + h32(1)):
